@@ -249,7 +249,8 @@ void generate(Program &prog, dsim::Config &cfg, dsim::Rng &pr, dsim::Rng &cr, in
     case kWaves: T = n + 1 + static_cast<int>(pr.below(5)); break;
     default: T = n + 1 + static_cast<int>(pr.below(3)); break;
   }
-  if (T > 14) T = 14;
+  if (scale() >= 1 && pr.chance(1, 3)) T += 1 + static_cast<int>(pr.below(4));  // thorough tier: longer histories
+  if (T > 18) T = 18;
   const int pattern = static_cast<int>(pr.below(4));  // all equal, adjacent, wrap (N-1), random
   const size_t base = pr.below(1000);
   prog.params = {static_cast<int64_t>(n), pattern};
